@@ -17,6 +17,7 @@
   (`startsWithMarker`) in every variant, with witness lemmas.
 -/
 import FerrousSpec.Proofs.RdbSnapshot
+import FerrousSpec.Proofs.RdbTotal
 namespace Ferrous.C09
 open Ferrous Ferrous.Rdb
 
@@ -204,6 +205,20 @@ theorem snapshot_fails_marker_list_unloadable :
     cases a <;> cases b <;> decide
   unfold decSnapshot
   rw [h]
+
+/-- The loader model is total for the right reason: on EVERY byte string (not only on files the
+    writer produced) `decSnapshot` answers with a dataset or with one of the loader's own errors —
+    the recursion budgets of the model (`input length + 1`) are never what stops it. -/
+theorem decSnapshot_total (fix : Fix) (bs : Bytes) (now : Nat) :
+    (∃ d, decSnapshot fix bs now = .ok d) ∨ (∃ e, decSnapshot fix bs now = .error e ∧ e ≠ .fuel) := by
+  unfold decSnapshot
+  cases h : decSnapshotT fix bs now with
+  | ok s r al => exact Or.inl ⟨s, rfl⟩
+  | err e al =>
+    refine Or.inr ⟨e, rfl, ?_⟩
+    intro he
+    subst he
+    exact decSnapshotT_never_fuel fix bs now al h
 
 /-- For C10: on a valid file the loader's allocations are exactly the string lengths, in file
     order — in particular each is bounded by the bytes that follow its length field. -/
